@@ -300,6 +300,14 @@ func checkC03(w *Worker) {
 							viol("wrong-amount", fmt.Sprintf("row %q (path %s) shows %s, the foods at or below it sum to %s", rw.Label, rw.Path, rw.Amount, s))
 							return
 						}
+					} else {
+						// a food may be a category of another food (coffee and coffee/latte): a joined row stands for everything
+						// at or below its FIRST segment, so that the rows of a level still add up to the level above
+						head := strings.TrimSuffix(rw.Path, rw.Label) + strings.SplitN(rw.Label, "/", 2)[0]
+						if s, ok := sums[head]; ok && s != rw.Amount {
+							viol("wrong-amount", fmt.Sprintf("row %q shows %s, the foods at or below %s sum to %s", rw.Label, rw.Amount, head, s))
+							return
+						}
 					}
 					for j := i - 1; j >= 0; j-- {
 						if got.Rows[j].Level < rw.Level {
